@@ -137,6 +137,8 @@ def payload_ok(rule, p):
                 return False
             return True
         if re.match(r"^-[0-9]+$", p):
+            if int(p) == 0:
+                return None          # "-0": a spelling of zero the statement does not decide
             return False if rule != "INT" else None
         if not any(ch.isdigit() for ch in p):
             return False
@@ -188,7 +190,7 @@ def payload_ok(rule, p):
         if p == "":
             return None
         if re.match(r"^-[0-9]+$", p):
-            return False
+            return False if int(p) != 0 else None
         if not any(ch.isdigit() for ch in p):
             return False
         return None
